@@ -187,7 +187,119 @@ theorem file_roundtrip (deflate : Bytes → Bytes) (inflate : Inflate) (hz : Zli
   rw [h1]
   exact ⟨rfl, by simpa [RState.result] using h2⟩
 
+/-! ### metadata travels with the chunks (C11 at the byte level) -/
+
+/-- the chunks of a list of output documents, each with the metadata document (as the reader stores it: the whole
+type-0 document) that precedes it most closely -/
+def partsWithMeta (deflate : Bytes → Bytes) (now : I64) : Option BDoc → List OutDoc → List (BDoc × List Row × Option BDoc)
+  | _, [] => []
+  | _, .metaDoc id m :: r => partsWithMeta deflate now (some (wireDoc deflate now (.metaDoc id m))) r
+  | md, .chunk _ ref first rows :: r => (ref, first :: rows, md) :: partsWithMeta deflate now md r
+
+theorem processDocs_file_meta (deflate : Bytes → Bytes) (inflate : Inflate) (hz : ZlibOK deflate inflate) (now : I64) :
+    ∀ (outs : List OutDoc), (∀ o ∈ outs, OutOK deflate now o) → ∀ (md : Option BDoc) (acc : List Chunk),
+    ∃ md' cs, processDocs inflate (.running md acc) (outs.map fun o => serDoc (wireDoc deflate now o)) = .running md' (acc ++ cs) ∧
+      cs.map (fun c => (c.ref, c.rows, c.metadata)) = partsWithMeta deflate now md outs := by
+  intro outs
+  induction outs with
+  | nil => intro _ md acc; exact ⟨md, [], by simp [processDocs], rfl⟩
+  | cons o rest ih =>
+    intro hok md acc
+    have ho := hok o (List.mem_cons_self ..)
+    have hrest : ∀ x ∈ rest, OutOK deflate now x := fun x hx => hok x (List.mem_cons_of_mem _ hx)
+    have hparse := parseDoc_serDoc (wireDoc deflate now o) (wireDoc_wf deflate now o ho) ho.2.1
+    simp only [List.map_cons, processDocs, List.foldl_cons, stepDoc, hparse]
+    cases o with
+    | metaDoc id mdoc =>
+      simp only [processDoc_meta]
+      obtain ⟨md', cs, h1, h2⟩ := ih hrest (some (wireDoc deflate now (.metaDoc id mdoc))) acc
+      exact ⟨md', cs, h1, by simpa [partsWithMeta] using h2⟩
+    | chunk id ref first rows =>
+      obtain ⟨c, hd, hrows⟩ := chunkOK_decodes id ref first rows ho.1
+      have href : c.ref = ref := by
+        obtain ⟨⟨hw, hl, hts, hnm⟩, hf, hr, hn⟩ := ho.1
+        subst hf
+        have hnm' : (vals ref).length < 2 ^ 32 := by simpa [vals] using hnm
+        obtain ⟨c', h1, h2, _⟩ := decode_payload ref rows hw hl hts hr hnm' hn (by
+          have := Nat.mul_lt_mul'' hnm' hn
+          have e : (2 : Nat) ^ 32 * 2 ^ 32 = 2 ^ 64 := by decide
+          omega)
+        have : c = c' := by
+          have := hd.symm.trans h1; simpa [OutDoc.payload] using this
+        rw [this]; exact h2
+      simp only [processDoc_chunk deflate inflate hz now id ref first rows md c hd]
+      obtain ⟨md', cs, h1, h2⟩ := ih hrest md (acc ++ [{ c with id := some (idMs now id), metadata := md }])
+      refine ⟨md', { c with id := some (idMs now id), metadata := md } :: cs, by simpa [processDocs] using h1, ?_⟩
+      simp only [List.map_cons, partsWithMeta, h2]
+      congr 1
+      show (c.ref, Chunk.rows { c with id := some (idMs now id), metadata := md }, md) = _
+      rw [href]; congr 2
+
+/-- **Metadata travels with the chunks it describes, at the byte level**: in the file made of any list of output
+documents, every chunk the reader delivers carries the metadata document that precedes it most closely (none before
+the first one) - besides its reference document and samples -/
+theorem file_roundtrip_meta (deflate : Bytes → Bytes) (inflate : Inflate) (hz : ZlibOK deflate inflate) (now : I64)
+    (outs : List OutDoc) (hok : ∀ o ∈ outs, OutOK deflate now o) :
+    (readAll inflate (fileBytes deflate now outs)).err = none ∧
+    (readAll inflate (fileBytes deflate now outs)).chunks.map (fun c => (c.ref, c.rows, c.metadata)) =
+      partsWithMeta deflate now none outs := by
+  have hfr : ∀ db ∈ (outs.map fun o => serDoc (wireDoc deflate now o)), WellFramed db := by
+    intro db hdb
+    obtain ⟨o, ho, rfl⟩ := List.mem_map.mp hdb
+    exact serDoc_wellFramed _ (hok o ho).2.1
+  unfold fileBytes
+  rw [readAll_framed inflate _ hfr]
+  obtain ⟨md', cs, h1, h2⟩ := processDocs_file_meta deflate inflate hz now outs hok none []
+  rw [h1]
+  exact ⟨rfl, by simpa [RState.result] using h2⟩
+
 /-! ### composed with the collectors -/
+
+/-- what `decodePayload` returns for a well-formed chunk: its reference document and exactly its samples -/
+theorem decoded_ref_rows (id : Ts) (ref : BDoc) (first : Row) (rows : List Row) (h : ChunkOK (.chunk id ref first rows))
+    (c : Chunk) (hd : decodePayload (payloadOf ref first rows) = .ok c) : c.ref = ref ∧ c.rows = first :: rows := by
+  obtain ⟨⟨hw, hl, hts, hnm⟩, hf, hr, hn⟩ := h
+  subst hf
+  have hnm' : (vals ref).length < 2 ^ 32 := by simpa [vals] using hnm
+  obtain ⟨c', h1, h2, h3⟩ := decode_payload ref rows hw hl hts hr hnm' hn (by
+    have := Nat.mul_lt_mul'' hnm' hn
+    have e : (2 : Nat) ^ 32 * 2 ^ 32 = 2 ^ 64 := by decide
+    omega)
+  have : c = c' := by have := hd.symm.trans h1; simpa using this
+  rw [this]; exact ⟨h2, h3⟩
+
+theorem addLog_fst (ds : List BDoc) : ∀ (c : Streaming) (acc : List BDoc),
+    (ds.foldl addLog (c, acc)).1 = ds.foldl (fun (c : Streaming) d => (c.add d).1) c := by
+  induction ds with
+  | nil => intro c acc; rfl
+  | cons d ds ih =>
+    intro c acc
+    simp only [List.foldl_cons]
+    have e : addLog (c, acc) d = ((c.add d).1, (addLog (c, acc) d).2) := rfl
+    rw [e]; exact ih _ _
+
+/-- everything a streaming collector has handed to its writer (over a writer that accepts every write, documents
+`DocOK`) is a decodable chunk -/
+theorem streaming_logged_chunkOK (n : Nat) (hn : n < 2 ^ 32) (ds : List BDoc) (hds : ∀ d ∈ ds, DocOK d) :
+    ∀ o ∈ loggedDocs (ds.foldl (fun (c : Streaming) d => (c.add d).1) (Streaming.new n)).out, ChunkOK o := by
+  have hsok : ∀ (ds : List BDoc), (∀ d ∈ ds, DocOK d) → ∀ (c : Streaming) (acc : List BDoc), SOK n c →
+      SOK n (ds.foldl addLog (c, acc)).1 := by
+    intro ds
+    induction ds with
+    | nil => intro _ c acc h; exact h
+    | cons d ds ih =>
+      intro hd c acc h
+      simp only [List.foldl_cons]
+      have e : addLog (c, acc) d = ((c.add d).1, (addLog (c, acc) d).2) := rfl
+      rw [e]
+      exact ih (fun x hx => hd x (List.mem_cons_of_mem _ hx)) _ _ (sok_add n hn c d (hd d (List.mem_cons_self ..)) h)
+  have h0 : SOK n (Streaming.new n) :=
+    ⟨rfl, by intro o ho; simp [loggedDocs, Streaming.new] at ho,
+      ⟨by simp [Streaming.new, Better.Inv], rfl, by intro r hr; simp [Streaming.new] at hr⟩⟩
+  have hfin := hsok ds hds (Streaming.new n) [] h0
+  rw [addLog_fst] at hfin
+  exact hfin.2.1
+
 
 /-- the hypotheses that concern bytes, not samples: every written document fits BSON's 31-bit size, and a metadata
 document (user input to `SetMetadata`) is well-formed -/
